@@ -23,7 +23,12 @@ type Obs struct {
 }
 
 // Log appends an event.
-func (o *Obs) Log(format string, a ...any) { o.Events = append(o.Events, fmt.Sprintf(format, a...)) }
+func (o *Obs) Log(format string, a ...any) {
+	if vsched.Dying() {
+		return // the execution is over; goroutines being unwound must not add observations
+	}
+	o.Events = append(o.Events, fmt.Sprintf(format, a...))
+}
 
 // Has reports whether an event with the prefix exists.
 func (o *Obs) Has(prefix string) bool { return o.Index(prefix) >= 0 }
@@ -57,6 +62,9 @@ type Scenario[P any] struct {
 	Name     string
 	Params   P
 	MaxSteps int
+	// FreeBound > 0 additionally limits the number of non-default choices that cost no
+	// deviation (order of threads at blocking points, ready select arms); 0 = unlimited.
+	FreeBound int
 	// Body runs as the main thread of the execution; it builds fresh objects,
 	// starts threads with vsched.GoNamed and waits for the ones it cares about.
 	Body func(p P, o *Obs)
@@ -105,7 +113,7 @@ func Explore[P any](c *kit.Ctx, sc Scenario[P], bound int, shard, shards int) St
 	runtime.GOMAXPROCS(1) // one managed thread runs at a time; hand-offs are ~1.6x-4x faster on one P
 	stepLimited := 0
 	st := vsched.Explore(vsched.ExploreOpts{
-		Bound: bound, Deadline: c.Deadline(), Shard: shard, Shards: shards, SplitAt: 3, Run: vsched.Opts{MaxSteps: sc.MaxSteps},
+		Bound: bound, FreeBound: sc.FreeBound, Deadline: c.Deadline(), Shard: shard, Shards: shards, SplitAt: 3, Run: vsched.Opts{MaxSteps: sc.MaxSteps},
 		Exec: func(prefix []int) *vsched.Sched {
 			w := witness[P]{Scenario: sc.Name, Params: sc.Params, Schedule: prefix}
 			r, x, o := runOne(w, false)
@@ -142,6 +150,14 @@ func Explore[P any](c *kit.Ctx, sc Scenario[P], bound int, shard, shards int) St
 		c.NotExhaustive("scenario %s: %d executions hit the step horizon", sc.Name, stepLimited)
 	}
 	b, _ := json.Marshal(sc.Params)
-	c.Set("bound:"+sc.Name+":"+string(b), map[string]any{"deviation_bound": bound, "completed": !st.Capped, "executions": st.Execs, "max_decisions": st.MaxDecisions})
+	key := sc.Name + ":" + string(b)
+	c.AddInt("executions:"+key, st.Execs)
+	c.Set("bound:"+key, bound)
+	if sc.FreeBound > 0 {
+		c.Set("free_choice_bound:"+key, sc.FreeBound)
+	}
+	if st.Capped {
+		c.AddInt("capped_shards:"+key, 1)
+	}
 	return st
 }
